@@ -929,6 +929,35 @@ def _reduce_and_extend_loops(fn: FuncInfo) -> int:
                         step = ast.Assign(targets=[ast.Name(id=tname, ctx=ast.Store())], value=body)
                         loop = ast.For(target=ast.Name(id=elem, ctx=ast.Store()), iter=xs, body=[step], orelse=[])
                         repl = [first, loop] + ([ast.Return(value=ast.Name(id=tname, ctx=ast.Load()))] if isinstance(st, ast.Return) else [])
+            # `t = reduce(operator.ior, XS, INIT)`  ==>  `t = INIT` / `for x in XS: t |= x`   (also or_, add, iadd; XS may be map(F, YS))
+            elif isinstance(val, ast.Call) and not val.keywords and len(val.args) == 3 and isinstance(val.args[0], (ast.Attribute, ast.Name)) \
+                    and (isinstance(val.func, ast.Name) and val.func.id == "reduce" or isinstance(val.func, ast.Attribute) and val.func.attr == "reduce") \
+                    and (val.args[0].attr if isinstance(val.args[0], ast.Attribute) else val.args[0].id) in ("ior", "or_", "iadd", "add", "__ior__", "__or__"):
+                opname = val.args[0].attr if isinstance(val.args[0], ast.Attribute) else val.args[0].id
+                xs, init = val.args[1], val.args[2]
+                if isinstance(st, ast.Assign) and len(st.targets) == 1 and isinstance(st.targets[0], ast.Name):
+                    tname = st.targets[0].id
+                elif isinstance(st, ast.AnnAssign) and isinstance(st.target, ast.Name):
+                    tname = st.target.id
+                elif isinstance(st, ast.Return):
+                    tname = f"reduced__n{st.lineno}"
+                else:
+                    tname = None
+                if tname is not None:
+                    elem = f"item__n{st.lineno}"
+                    elem_val: ast.expr = ast.Name(id=elem, ctx=ast.Load())
+                    loop_iter = xs
+                    if isinstance(xs, ast.Call) and isinstance(xs.func, ast.Name) and xs.func.id == "map" and len(xs.args) == 2 and not xs.keywords:
+                        loop_iter = xs.args[1]
+                        elem_val = ast.Call(func=xs.args[0], args=[ast.Name(id=elem, ctx=ast.Load())], keywords=[])
+                    op = ast.BitOr() if "or" in opname else ast.Add()
+                    if opname in ("ior", "iadd", "__ior__"):
+                        step = ast.AugAssign(target=ast.Name(id=tname, ctx=ast.Store()), op=op, value=elem_val)
+                    else:
+                        step = ast.Assign(targets=[ast.Name(id=tname, ctx=ast.Store())], value=ast.BinOp(left=ast.Name(id=tname, ctx=ast.Load()), op=op, right=elem_val))
+                    first = ast.Assign(targets=[ast.Name(id=tname, ctx=ast.Store())], value=init)
+                    loop = ast.For(target=ast.Name(id=elem, ctx=ast.Store()), iter=loop_iter, body=[step], orelse=[])
+                    repl = [first, loop] + ([ast.Return(value=ast.Name(id=tname, ctx=ast.Load()))] if isinstance(st, ast.Return) else [])
             elif isinstance(st, ast.Expr) and isinstance(st.value, ast.Call) and isinstance(st.value.func, ast.Attribute) and st.value.func.attr == "extend" \
                     and len(st.value.args) == 1 and not st.value.keywords and isinstance(st.value.args[0], (ast.GeneratorExp, ast.ListComp)) \
                     and len(st.value.args[0].generators) == 1 and not st.value.args[0].generators[0].is_async:
